@@ -482,6 +482,15 @@ func (en *DefaultEngine) Exec(ctx context.Context, input []byte) (bool, error) {
 		ctx = context.WithValue(ctx, "SessionId", en.cfg.SessionId)
 	}
 
+	// refuse formally invalid input before anything is initialized or executed
+	// (the first function must not see it, either)
+	if len(input) > 0 {
+		_, err = vm.ValidInput(input)
+		if err != nil {
+			return true, err
+		}
+	}
+
 	cont, err := en.init(ctx, input)
 	if err != nil {
 		return false, err
